@@ -429,6 +429,25 @@ func (w *lpWorld) runSerial() *simcore.Violation {
 	return nil
 }
 
+// nonceWentBack reports whether some head announced by the operation (or by the
+// concurrent round) gave the account a lower state nonce than the head before it:
+// within one round a head advance followed by a reorg can take the nonce up and
+// back, so comparing only the states before and after is not enough.
+func (info *opInfo) nonceWentBack(ai int) bool {
+	if info.pre == nil {
+		return false
+	}
+	prev := info.pre.model[ai].Nonce
+	for _, h := range info.heads {
+		if n := h.model[ai].Nonce; n < prev {
+			return true
+		} else {
+			prev = n
+		}
+	}
+	return false
+}
+
 // opInfo is what an operation tells the oracle.
 type opInfo struct {
 	pre       *before
@@ -442,7 +461,8 @@ type opInfo struct {
 	maint     bool                    // ended with a maintenance cycle (runReorg)
 	dirty     map[common.Address]bool // add: senders of accepted transactions that replaced nothing
 	events    int
-	async     bool // a round of concurrently issued operations (asynchronous configuration)
+	async     bool        // a round of concurrently issued operations (asynchronous configuration)
+	heads     []*simBlock // every head announced by the operation (or round), in order
 }
 
 func (w *lpWorld) apply(i int, op *LPOp, pre *before) *opInfo {
@@ -606,6 +626,7 @@ func (w *lpWorld) applyHead(op *LPOp, pre *before, info *opInfo) {
 		simcore.Harnessf("txpool.Sync: %v", err)
 	}
 	info.newHead = steps[len(steps)-1]
+	info.heads = steps
 	info.maint = true
 	info.events = len(steps)
 }
@@ -736,7 +757,7 @@ func (w *lpWorld) check(op *LPOp, info *opInfo, post *before) *simcore.Violation
 				// (the front is the state nonce) and showed up in a head change that
 				// moved this account's state nonce back, or is that same gap still open.
 				inside := i > 0
-				wentBack := info != nil && info.newHead != nil && info.newHead.model[ai].Nonce < info.pre.model[ai].Nonce
+				wentBack := info != nil && info.nonceWentBack(ai)
 				if inside && (wentBack || w.knownGap[ai]) {
 					v.Key = "pending-nonce-gap:after-state-nonce-went-back"
 					v.Msg += " [the gap appeared when a reorg lowered this account's state nonce and a reinjected transaction was rejected]"
